@@ -45,13 +45,16 @@ def run_scripts(scripts, workdir, shards=12, keep=True):
             for s in part:
                 f.write(json.dumps(s) + "\n")
         jobs.append((sp, os.path.join(workdir, "trace-%d.ndjson" % k), os.path.join(workdir, "tlc-%d" % k)))
-    viols, events = [], 0
+    viols, drifts, events = [], [], 0
     with cf.ThreadPoolExecutor(max_workers=shards) as ex:
         for v, n, wall in ex.map(_shard, jobs):
             events += n
             for tag, x in v:
-                viols.append({"kind": tag, "id": x[0], "line": x[1], "tag": x[2], "sig": x[3] if len(x) > 3 else ""})
-    return viols, {"scripts": len(scripts), "events": events, "shards": shards}
+                if tag == "DRIFT":
+                    drifts.append({"id": x[0], "line": x[1], "action": x[2], "parts": sorted(x[3])})
+                else:
+                    viols.append({"kind": tag, "id": x[0], "line": x[1], "tag": x[2], "sig": x[3] if len(x) > 3 else ""})
+    return viols, {"scripts": len(scripts), "events": events, "shards": shards, "drift": drifts}
 
 
 def trace_of(workdir, script_id):
